@@ -20,6 +20,7 @@ import (
 	"github.com/ipfs/go-cid"
 	ci "github.com/libp2p/go-libp2p/core/crypto"
 	"github.com/libp2p/go-libp2p/core/peer"
+	mbase "github.com/multiformats/go-multibase"
 	mh "github.com/multiformats/go-multihash"
 
 	"verif/harness/vh"
@@ -106,6 +107,16 @@ func cidTable(inputs ...string) string {
 		}
 	}
 	return vh.List(items)
+}
+
+func mbEnc(b byte) mbase.Encoding { return mbase.Encoding(b) }
+
+func mustSha(data []byte) mh.Multihash {
+	h, err := mh.Sum(data, mh.SHA2_256, -1)
+	if err != nil {
+		panic(err)
+	}
+	return h
 }
 
 // ---------- generator ----------
@@ -304,6 +315,75 @@ func TestC28(t *testing.T) {
 			st.Case("rkey|"+string(data), hasPrefix)
 			st.Count("rkey")
 		}
+	}
+
+	// ---- names: hostile conversions ----
+	fromStr := func(t string) {
+		var ctbl, btbl []string
+		seen := map[string]bool{}
+		for _, x := range []string{t, strings.TrimPrefix(t, "/ipns/")} {
+			if seen[x] {
+				continue
+			}
+			seen[x] = true
+			if c, err := cid.Decode(x); err == nil && c.Type() < 128 {
+				ctbl = append(ctbl, fmt.Sprintf("(%s, (%d, %d, %s))", cstr(x), c.Version(), c.Type(), cstr(string(c.Hash()))))
+			}
+			if m, err := mh.FromB58String(x); err == nil {
+				btbl = append(btbl, "("+cstr(x)+", "+cstr(string(m))+")")
+			}
+		}
+		res := "None"
+		if x, err := ipns.NameFromString(t); err == nil {
+			res = "(Some " + cstr(string(x.Peer())) + ")"
+		}
+		cs.Add(fmt.Sprintf("(CFromStr %s %s %s %s)", cstr(t), vh.List(ctbl), vh.List(btbl), res), map[string]any{"kind": "name-from-string", "input": t})
+		st.Case("fs|"+t, res != "None")
+		st.Count("name-from-string")
+	}
+	for _, k := range keys {
+		n := k.name
+		mhb := []byte(n.Peer())
+		for _, codec := range []uint64{cid.Libp2pKey, cid.Raw, cid.DagProtobuf, cid.DagCBOR} {
+			c := cid.NewCidV1(codec, mh.Multihash(mhb))
+			res := "None"
+			if x, err := ipns.NameFromCid(c); err == nil {
+				res = "(Some " + cstr(string(x.Peer())) + ")"
+			}
+			cs.Add(fmt.Sprintf("(CFromCid %d %s %s)", codec, cstr(string(mhb)), res), map[string]any{"kind": "name-from-cid", "codec": codec, "name": n.String()})
+			st.Case(fmt.Sprintf("fc|%d|%s", codec, n.String()), codec == cid.Libp2pKey)
+			st.Count("name-from-cid")
+			for _, base := range []byte{'b', 'k', 'z', 'f'} {
+				if txt, err := c.StringOfBase(mbEnc(base)); err == nil {
+					fromStr(txt)
+					if base == 'k' {
+						fromStr("/ipns/" + txt)
+						fromStr("/ipfs/" + txt)
+						fromStr(txt + "/")
+					}
+				}
+			}
+		}
+		fromStr(n.Peer().String())
+		fromStr("/ipns/" + n.Peer().String())
+		fromStr(cid.NewCidV0(mustSha(mhb)).String()) // a "Qm…" text: taken as a base58 multihash, not as a CID
+		fromStr(n.String()[:len(n.String())-2])
+		fromStr("1" + n.String())
+	}
+	for _, t := range []string{"", "/ipns/", "Qm", "1", "k", "example.com", "/ipns/example.com", "bafkqaaa", "QmInvalid0OIl"} {
+		fromStr(t)
+	}
+	{
+		// a routing key that only starts with "/ipn" but whose bytes happen to parse as a multihash
+		data := append([]byte("/ipn"), make([]byte, 103)...)
+		_, cerr := mh.Cast(data)
+		res := "None"
+		if x, err := ipns.NameFromRoutingKey(data); err == nil {
+			res = "(Some " + cstr(string(x.Peer())) + ")"
+		}
+		cs.Add(fmt.Sprintf("(CRkey %s false %s)", cstr(string(data)), res), map[string]any{"kind": "rkey", "data": data, "whole_is_multihash": cerr == nil})
+		st.Case("rkey|ipn", true)
+		st.Count("rkey")
 	}
 
 	// ---- paths ----
